@@ -66,6 +66,13 @@ pub struct Case {
     /// a hand-filled matrix with k-1 spare rows and arbitrary symbols in the cells that hold no position
     #[serde(default)]
     pub via_new: u8,
+    /// (length, seed): the striped buffer held another sequence before, was configured for the motif, and the
+    /// sequence of this case was then striped INTO it (generic pipeline for the narrow layouts; `restripe_by` picks
+    /// generic / AVX2 / dispatcher for 32 columns) and configured again
+    #[serde(default)]
+    pub prior_seq: Option<(usize, u64)>,
+    #[serde(default)]
+    pub restripe_by: u8,
 }
 
 pub struct ScoreSub;
@@ -96,9 +103,10 @@ fn case_strategy(tier: Tier) -> BoxedStrategy<Case> {
                 prop_oneof![3 => Just(0usize), 1 => 1usize..=3, 1 => 30usize..=40],
                 (0u8..=16, 0u8..=16),
                 (prop_oneof![2 => Just(0usize), 1 => 1usize..=50], prop_oneof![1 => Just(0usize), 1 => 1usize..=8], prop_oneof![5 => Just(0u8), 1 => Just(1u8), 1 => 2u8..=4]),
+                (prop_oneof![3 => Just(None), 1 => (0usize..=900, any::<u64>()).prop_map(Some)], 0u8..3),
             )
         })
-        .prop_map(|(abc, cols, (seq, mat), extra_wrap, sub, (prev_rows, first_width, via_new))| Case { abc, cols, seq, mat, extra_wrap, sub, prev_rows, first_width, via_new })
+        .prop_map(|(abc, cols, (seq, mat), extra_wrap, sub, (prev_rows, first_width, via_new), (prior_seq, restripe_by))| Case { abc, cols, seq, mat, extra_wrap, sub, prev_rows, first_width, via_new, prior_seq, restripe_by })
         .boxed()
 }
 
@@ -108,7 +116,7 @@ impl Sub for ScoreSub {
         "score"
     }
     fn rule(&self) -> &'static str {
-        "alphabet x layout (1, 2, 4, 7, 8, 16, 32, 48, 64 columns) x boundary-biased length x sequence mode x matrix regime (library / finite / -inf / small-int) x width 1..70 (and, 1 case in 13, width 100..400 on a sequence with only 0..40 valid positions) x extra wrap x row sub-range x reused buffer x sequence striped by the library or (2 in 7) built through StripedSequence::new from a hand-filled matrix with arbitrary symbols in the unused cells and 0..3 spare rows; every backend implemented for the layout (generic, sse2, avx2, dispatch forced to each arm) and every read-out path compared with a linear-sequence reference; sweep = every length 0..70 (thorough ..1100) x 4 widths x both alphabets x 16/32 columns, plus sequences of more than 65536 striped rows; non-trivial = L >= M and R >= 2 (distinct by full case)"
+        "alphabet x layout (1, 2, 4, 7, 8, 16, 32, 48, 64 columns) x boundary-biased length x sequence mode x matrix regime (library / finite / -inf / small-int) x width 1..70 (and, 1 case in 13, width 100..400 on a sequence with only 0..40 valid positions) x extra wrap x (one in four) a buffer that held another sequence, was configured, and into which the sequence is then striped by the generic / AVX2 / dispatched pipeline x row sub-range x reused buffer x sequence striped by the library or (2 in 7) built through StripedSequence::new from a hand-filled matrix with arbitrary symbols in the unused cells and 0..3 spare rows; every backend implemented for the layout (generic, sse2, avx2, dispatch forced to each arm) and every read-out path compared with a linear-sequence reference; sweep = every length 0..70 (thorough ..1100) x 4 widths x both alphabets x 16/32 columns, plus sequences of more than 65536 striped rows; non-trivial = L >= M and R >= 2 (distinct by full case)"
     }
     fn cases(&self, tier: Tier) -> u64 {
         tier.pick(100_000, 3_000_000)
@@ -138,6 +146,8 @@ impl Sub for ScoreSub {
                             prev_rows: l % 3,
                             first_width: l % 2,
                             via_new: 0,
+                            prior_seq: None,
+                            restripe_by: 0,
                         });
                     }
                 }
@@ -162,6 +172,8 @@ impl Sub for ScoreSub {
                 prev_rows: 0,
                 first_width: 0,
                 via_new: 0,
+                            prior_seq: None,
+                            restripe_by: 0,
             });
         }
         out
@@ -207,12 +219,32 @@ struct Prepared<A: Alphabet, C: PositiveLength> {
     sub: Range<usize>,
 }
 
+/// `stripe_into` an existing buffer through one of the striping backends available for the layout.
+fn restripe<A: Alphabet, C: PositiveLength>(by: u8, symbols: &[A::Symbol], buf: &mut StripedSequence<A, C>) {
+    use std::any::Any;
+    if let Some(wide) = (buf as &mut dyn Any).downcast_mut::<StripedSequence<A, lightmotif::num::U32>>() {
+        match by % 3 {
+            1 => return Pipeline::<A, _>::avx2().unwrap().stripe_into(symbols, wide),
+            2 => return Pipeline::<A, _>::dispatch().stripe_into(symbols, wide),
+            _ => {}
+        }
+    }
+    Stripe::<A, C>::stripe_into(&Pipeline::<A, _>::generic(), symbols, buf);
+}
+
 fn prepare<A: Alphabet, C: PositiveLength>(case: &Case) -> Prepared<A, C> {
     let idx = case.seq.expand(case.abc.k());
     let cells = case.mat.cells();
     let pssm = build_pssm::<A>(&case.mat);
     let symbols = syms::<A>(&idx);
     let mut striped: StripedSequence<A, C> = if case.via_new > 0 { striped_via_new::<A, C>(&idx, case.via_new as usize - 1, idx.len() as u64 + 17) } else { Pipeline::<A, _>::generic().stripe(&symbols) };
+    if let (Some((l0, seed)), 0) = (case.prior_seq, case.via_new) {
+        let before = SeqSpec::Seeded { len: l0, seed, wild_pct: 2 }.expand(case.abc.k());
+        let mut buf: StripedSequence<A, C> = Pipeline::<A, _>::generic().stripe(&syms::<A>(&before));
+        buf.configure_wrap(cells.len() - 1 + case.extra_wrap);
+        restripe::<A, C>(case.restripe_by, &symbols, &mut buf);
+        striped = buf;
+    }
     striped.configure_wrap(cells.len() - 1 + case.extra_wrap);
     let rows = striped.matrix().rows() - striped.wrap();
     let (a, b) = (case.sub.0.min(case.sub.1) as usize, case.sub.0.max(case.sub.1) as usize);
@@ -410,6 +442,7 @@ fn classify<C: PositiveLength>(case: &Case, l: usize, m: usize, rows: usize, sub
     info.class_if(sub.is_empty(), "empty-subrange");
     info.class_if(m - 1 + case.extra_wrap > rows, "wrap>R");
     info.class_if(case.prev_rows > 0, "reused-buffer");
+    info.class_if(case.prior_seq.is_some() && case.via_new == 0, "striped-into-a-buffer-configured-for-another-sequence");
     info.class_if(case.via_new == 1, "built-by-StripedSequence::new(arbitrary-padding)");
     info.class_if(case.via_new > 1, "built-by-StripedSequence::new(spare-rows)");
     info.class(match case.cols {
